@@ -116,6 +116,9 @@ def run_case(case, rng):
     if tie_family:
         rao = rng.random() < 0.8
     extra_kw = dict(iterations=300) if margin == 0.0 else {}    # exact convergence may never come: bounded number of trials
+    if rng.random() < 0.2:
+        extra_kw["max_trial_length"] = rng.choice([1, 2, 5])     # trials cut short: more of them, same guarantees
+    case.params["max_trial_length"] = extra_kw.get("max_trial_length")
     planner = LRTDP(heuristic=lambda s: h[s], bellman_error_margin=margin, randomize_action_order=rao,
                     event_listener_class=Probe, seed=seed, **extra_kw)
     reuse = rng.random() < 0.3
